@@ -7,8 +7,9 @@
     verification never panics — it returns a boolean. The core of the proof is the no-overflow chain through the
     NTT-domain pipeline with a range tracked at every step (9q, 7q, 9q, 2^23, 2^23+8q, q, 8q, q, q, [0,q), [0,m)) and
     the totality of the hint decoder on adversarial counters and indices.
-    NOT yet Coq theorems: the same for key generation and signing (the checks run both builds on them, incl. volume). *)
-From DV Require Import Base MReduce MParams MSign MApi PTape PTotal PTotalClosed.
+    Key generation from any 32-byte seed likewise never panics (PKeygen.v). NOT yet a Coq theorem: the same for signing
+    (the checks run both builds on it, incl. volume). *)
+From DV Require Import Base MReduce MParams MSign MApi PTape PTotal PTotalClosed PKeygen.
 
 Theorem C08_verify_never_panics : forall (P : params) (sig m pk : list Z),
   std P -> Forall is_byte sig -> Forall is_byte m -> Forall is_byte pk -> zlen pk = pPK P ->
@@ -38,6 +39,12 @@ Theorem C08_verifier_arithmetic_no_overflow :
   exists buf, verify_arith P mat cp t1 z h = Ok buf /\ Forall is_byte buf.
 Proof. exact verify_arith_ok. Qed.
 Print Assumptions C08_verifier_arithmetic_no_overflow.
+
+Theorem C08_keygen_never_panics : forall (P : params) (xi pk0 sk0 tape : list Z),
+  std P -> Forall is_byte xi -> zlen xi = 32 -> zlen pk0 = pPK P -> zlen sk0 = pSK P ->
+  keypair P pk0 sk0 (Some xi) tape <> Panic.
+Proof. exact keypair_no_panic. Qed.
+Print Assumptions C08_keygen_never_panics.
 
 (** the domain edges of the kernels are real (checked build panics one step outside the documented domain) *)
 Example C08_edges_are_real :
